@@ -396,7 +396,14 @@ func (lex *Lexer) Lex() *token.Token {
         heredoc := |*
             "{$" => {lex.ungetCnt(1); lex.setTokenPosition(tkn); tok = token.T_CURLY_OPEN; lex.call(ftargs, fentry(php)); goto _out;};
             "${" => {lex.setTokenPosition(tkn); tok = token.T_DOLLAR_OPEN_CURLY_BRACES; lex.call(ftargs, fentry(string_var_name)); goto _out;};
-            "$"  => {lex.ungetCnt(1); fcall string_var;};
+            "$"  => {
+                if lex.te < len(lex.data) && isValidVarNameStart(lex.data[lex.te]) {
+                    lex.ungetCnt(1); fcall string_var;
+                } else {
+                    // a `$` that starts no variable is plain text
+                    lex.setTokenPosition(tkn); tok = token.T_ENCAPSED_AND_WHITESPACE; fbreak;
+                }
+            };
             any_line* when is_not_heredoc_end_or_var => {
                 lex.setTokenPosition(tkn);
                 tok = token.T_ENCAPSED_AND_WHITESPACE;
